@@ -32,6 +32,7 @@ func init() {
 func runC02(p *Program, r *Report) {
 	c02emit(p, r, "C02.emit")
 	c02mask(p, r, "C02.mask")
+	c02type(p, r, "C02.type")
 	c02bits(p, r, "C02.bits")
 	c02ctl(p, r, "C02.ctl")
 	c02frag(p, r, "C02.frag")
@@ -337,6 +338,64 @@ func c02flush(p *Program, r *Report, rule string) {
 		},
 		What: "a frame is emitted as header, then the payload p, and — when it is final — flushed to the transport before success is reported",
 	})
+}
+
+// c02type: the MessageType argument of Write / Writer becomes the opcode of the first frame. Conn.writer, which every
+// write entry point goes through, refuses everything but text (1) and binary (2) before the message writer is reset:
+// 0 would be a continuation frame with no message in progress, 3-7 and 11-15 reserved opcodes, 8-10 control frames of any
+// length, larger values reserved bits (F39).
+func c02type(p *Program, r *Report, rule string) {
+	fn := p.Func("Conn.writer")
+	if fn == nil {
+		return
+	}
+	p.runTable(r, tableSpec{
+		Rule: rule, Fn: fn,
+		Atoms: []Atom{intAtom("param:typ", []int64{-1, 0, 1, 2, 3, 7, 8, 9, 10, 11, 15, 16, 0x31, 0x42, 0x81, 0x82, 255, 256, 1 << 20})},
+		Classify: func(v Valuation, pa *Path) string {
+			if pa.End != "return" {
+				return pa.End
+			}
+			rs := pa.Calls("msgWriter.reset")
+			switch {
+			case len(rs) == 0 && retErr(pa) == "nonnil":
+				if c, ok := pa.Ret[0].(*Const); ok && c.IsNil {
+					return "REFUSED"
+				}
+				return "REFUSED-WITH-A-WRITER"
+			case len(rs) == 1 && (argKey(rs[0], 2) == "param:typ" || v.Int("param:typ") >= 0 && argKey(rs[0], 2) == fmt.Sprint(v.Int("param:typ"))):
+				return "STARTED"
+			}
+			if len(rs) == 1 {
+				return "STARTED-WITH " + argKey(rs[0], 2)
+			}
+			return "OTHER"
+		},
+		Oracle: func(v Valuation) []string {
+			if t := v.Int("param:typ"); t == 1 || t == 2 {
+				return []string{"STARTED"}
+			}
+			return []string{"REFUSED"}
+		},
+		What: "Conn.writer starts a message (msgWriter.reset(ctx, typ)) only for MessageText and MessageBinary; every other value of the type is refused with an error and no writer before anything is reset or written",
+	})
+	// every write entry point goes through it
+	for _, name := range []string{"Conn.Writer", "Conn.write"} {
+		if f := p.FuncOpt(name); f != nil {
+			name := name
+			p.forAllPaths(r, rule, f, "through Conn.writer", Opts{}, name+" obtains its writer from Conn.writer with the caller's type", func(pa *Path) (bool, string) {
+				if len(pa.Calls("msgWriter.reset")) > 0 {
+					return false, "resets the message writer directly"
+				}
+				for _, w := range pa.Calls("Conn.writer") {
+					if argKey(w, 2) != "param:typ" {
+						return false, "type handed on: " + argKey(w, 2)
+					}
+				}
+				return true, ""
+			})
+		}
+	}
 }
 
 func c02bits(p *Program, r *Report, rule string) {
